@@ -53,7 +53,19 @@ def instr_oracle(prog, obs, impl):
     fails = []
     subs = prog['subs']
     byid = {s['id']: s for s in subs}
-    byname = {s['name']: s for s in subs}
+    class _ByName(dict):
+        """instruction lines name substances; with namesakes in play the part is matched to the namesake whose unit and amount fit"""
+    byname = {}
+    for s in subs:
+        byname.setdefault(s['name'], []).append(s)
+
+    def pick(name, unit, stated, amount_of):
+        cands = byname[name]
+        if len(cands) == 1:
+            return cands[0]
+        b = split_unit(unit)[1]
+        fit = [s for s in cands if {'Solid': 'g', 'Liquid': 'L', 'Enzyme': 'U'}[s['kind']] == b] or cands
+        return min(fit, key=lambda s: abs(amount_of(s, b) / SI[split_unit(unit)[0]][1] - stated))
     for i, op, o, dumps in oracles.walk(prog, obs):
         if not o['ok']:
             continue
@@ -78,7 +90,8 @@ def instr_oracle(prog, obs, impl):
                         if not pm:
                             fails.append((i, f"cannot read the amount in {part!r}"))
                             continue
-                        sd = byname[pm.group(3)]
+                        sd = pick(pm.group(3), pm.group(2), F(Decimal(pm.group(1))), lambda s, b: histcheck.amount_in(
+                            s, new['cont'].get(s['id'], F(0)) - (s0['cont'].get(s['id'], F(0)) - s1['cont'].get(s['id'], F(0))), b))
                         b = {'Solid': 'g', 'Liquid': 'L', 'Enzyme': 'U'}[sd['kind']]
                         added = new['cont'].get(sd['id'], F(0)) - (s0['cont'].get(sd['id'], F(0)) - s1['cont'].get(sd['id'], F(0)))
                         if split_unit(pm.group(2))[1] != b:
@@ -95,7 +108,7 @@ def instr_oracle(prog, obs, impl):
                         if not pm:
                             fails.append((i, f"cannot read the amount in {part!r}"))
                             continue
-                        sd = byname[pm.group(3)]
+                        sd = pick(pm.group(3), pm.group(2), F(Decimal(pm.group(1))), lambda s, b: histcheck.amount_in(s, d['cont'].get(s['id'], F(0)), b))
                         b = {'Solid': 'g', 'Liquid': 'L', 'Enzyme': 'U'}[sd['kind']]
                         true = histcheck.amount_in(sd, d['cont'].get(sd['id'], F(0)), b)
                         if split_unit(pm.group(2))[1] != b:
